@@ -38,7 +38,13 @@ type recStream struct {
 	ctx  context.Context
 	mu   sync.Mutex
 	msgs []string
+	// back-pressure: when held, every Send blocks until the harness releases it
+	held    bool
+	pending int
+	gate    chan struct{}
 }
+
+func (s *recStream) isPending() bool { s.mu.Lock(); defer s.mu.Unlock(); return s.pending > 0 }
 
 func (s *recStream) Context() context.Context { return s.ctx }
 func (s *recStream) MsgSend(m srpc.Message) error {
@@ -71,6 +77,23 @@ func (s *recStream) Send(m *access.LookupRpcServiceResponse) error {
 		parts = append(parts, "I0")
 	}
 	s.mu.Lock()
+	held := s.held
+	if held {
+		s.pending++
+	}
+	s.mu.Unlock()
+	if held {
+		// the remote is slow: the write completes only when released
+		select {
+		case <-s.gate:
+		case <-s.ctx.Done():
+			return context.Canceled
+		}
+	}
+	s.mu.Lock()
+	if held {
+		s.pending--
+	}
 	s.msgs = append(s.msgs, strings.Join(parts, "+"))
 	s.mu.Unlock()
 	return nil
@@ -150,6 +173,10 @@ type scenario struct {
 	// idlerStartsIdle: the idle-toggling resolver marks itself idle at start.
 	idlerStartsIdle bool
 	nprov           int
+	// backpressure: the remote end of the stream is slow; every write blocks
+	// until a "rel" event lets it complete. Reports then lag behind the model:
+	// what was delivered must be a prefix of what the model expects.
+	backpressure bool
 }
 
 type sys struct {
@@ -213,7 +240,7 @@ func newSys(sc scenario) *sys {
 
 	var sctx context.Context
 	sctx, s.strmCancel = context.WithCancel(s.ctx)
-	s.strm = &recStream{ctx: sctx}
+	s.strm = &recStream{ctx: sctx, held: sc.backpressure, gate: make(chan struct{})}
 	s.done = make(chan struct{})
 	srv := access.NewAccessRpcServiceServer(b, false, nil)
 	req := access.NewLookupRpcServiceRequest("svc", "srv")
@@ -253,14 +280,21 @@ func (s *sys) Enabled() []string {
 	} else {
 		evs = append(evs, "idle")
 	}
-	if !s.cancelled {
+	if !s.cancelled && !s.sc.backpressure {
 		evs = append(evs, "cancel")
+	}
+	if s.sc.backpressure && s.strm.isPending() {
+		evs = append(evs, "rel")
 	}
 	return evs
 }
 
 func (s *sys) Apply(ev string) {
 	s.applied = append(s.applied, ev)
+	if ev == "rel" {
+		s.strm.gate <- struct{}{}
+		return
+	}
 	switch {
 	case strings.HasPrefix(ev, "add"), strings.HasPrefix(ev, "rem"):
 		i := int(ev[3] - '1')
@@ -412,6 +446,19 @@ func (s *sys) Check() []string {
 		msgs = msgs[:s.atCancel]
 	}
 	er, idle, malformed := project(msgs)
+	if s.sc.backpressure {
+		if len(malformed) > 0 {
+			out = append(out, fmt.Sprintf("response-both-exists-and-removed :: a response carries exists and removed at once: %v", malformed))
+		}
+		if !isPrefix(er, s.wantER) {
+			k := classify(er, s.wantER[:min(len(er), len(s.wantER))], "E", "R", "exists", "removed")
+			out = append(out, fmt.Sprintf("slow-remote/%s :: with a slow remote the exists/removed reports delivered so far are %v, not a prefix of what the provider count model expects %v (full stream %v)", k, er, s.wantER, msgs))
+		}
+		if !isPrefix(idle, s.wantIdle) {
+			out = append(out, fmt.Sprintf("slow-remote/idle-reports-wrong :: with a slow remote the idle reports delivered so far are %v, not a prefix of what the idle model expects %v (full stream %v)", idle, s.wantIdle, msgs))
+		}
+		return out
+	}
 	if len(malformed) > 0 {
 		out = append(out, fmt.Sprintf("response-both-exists-and-removed :: a response carries exists and removed at once: %v", malformed))
 	}
@@ -454,6 +501,25 @@ func (s *sys) Check() []string {
 	return out
 }
 
+func tailOf(a []string, n int) []string {
+	if len(a) > n {
+		return a[len(a)-n:]
+	}
+	return a
+}
+
+func isPrefix(a, b []string) bool {
+	if len(a) > len(b) {
+		return false
+	}
+	for i := range a {
+		if a[i] != b[i] {
+			return false
+		}
+	}
+	return true
+}
+
 func (s *sys) returned() string {
 	select {
 	case <-s.done:
@@ -479,6 +545,11 @@ func (s *sys) Canon() string {
 		observed.examples = append(observed.examples, map[string]any{"scenario": s.sc.name, "history": append([]string{}, s.applied...), "stream": msgs})
 	}
 	observed.mu.Unlock()
+	if s.sc.backpressure {
+		// the server's queue of undelivered reports is part of the state: it is a
+		// function of the expected report sequences and of what was delivered
+		return fmt.Sprintf("has=%v idle=%v stream=%v wantER=%v wantIdle=%v pending=%v applied-tail=%v server=%s", s.has, s.idle, s.strm.snapshot(), s.wantER, s.wantIdle, s.strm.isPending(), tailOf(s.applied, 3), s.returned())
+	}
 	return fmt.Sprintf("has=%v idle=%v cancelled=%v stream=%v server=%s", s.has, s.idle, s.cancelled, s.strm.snapshot(), s.returned())
 }
 
@@ -647,6 +718,7 @@ func TestC36(t *testing.T) {
 		{name: "resolver-providers/idler-starts-busy", nprov: 2},
 		{name: "resolver-providers/idler-starts-idle", nprov: 2, idlerStartsIdle: true},
 		{name: "controller-providers", nprov: 2, ctrlLevel: true},
+		{name: "resolver-provider/slow-remote", nprov: 1, backpressure: true},
 	}
 	if !run.Quick() {
 		depth = 12
@@ -661,6 +733,9 @@ func TestC36(t *testing.T) {
 		d := depth
 		if sc.nprov == 3 {
 			d = depth - 1
+		}
+		if sc.backpressure {
+			d = depth + 1 // three events per state: deeper at the same cost
 		}
 		res := hist.BFS(t, &hist.Config{
 			Name:     sc.name,
